@@ -65,6 +65,12 @@ def run_batch(ck, label, histories, domains, box=2, univ=12, timeout=1500, step_
         st = byid[tid]["steps"][step - 1]
         fails.append({"trace": tid, "step": step, "dom": dom, "why": why, "witness": f[4] if len(f) > 4 else None,
                       "property": attribute(why, st), "history": byid[tid]})
+    # C16: a type-erased wrapper (ref_<domain>) that fails a step which its unwrapped domain passes does not describe
+    # "exactly what the unwrapped domain describes": such a failure belongs to C16 whatever the operation is
+    failed = {(f["trace"], f["step"], f["dom"]) for f in fails}
+    for f in fails:
+        if f["dom"].startswith("ref_") and f["dom"][4:] in domains and (f["trace"], f["step"], f["dom"][4:]) not in failed:
+            f["property"] = "C16"
     knowns, seenk = [], set()
     for f in r.tuples("KNOWN"):
         key = json.dumps(f[:5])
